@@ -271,6 +271,10 @@ def fields_equal(a, b):
             y += [False] * (-len(y) % 8)
             if x != y:
                 return False
+        elif k == 'objects':
+            # the identification objects of a message are a mapping id -> value: their order on the wire is not a field
+            if sorted(map(list, a[k])) != sorted(map(list, b[k])):
+                return False
         elif a[k] != b[k]:
             return False
     return True
